@@ -190,7 +190,7 @@ package parsley
 //@   assigns  nothing
 
 //@ pure func InInput(r Reader, pos Pos) bool = r.Pos(0) <= pos && r.Remaining(pos) >= 0
-//@ pure func WfCtx(ctx *Context) bool = ctx != nil && ctx.reader != nil && dyntype(ctx.reader) == TextReaderType() && ReaderOK(ctx.reader) && ctx.resultCache != nil && ctx.keywords != nil && (ctx.err != nil ==> ctx.err.Pos() <= GhostMaxFail)
+//@ pure func WfCtx(ctx *Context) bool = ctx != nil && ctx.reader != nil && dyntype(ctx.reader) == TextReaderType() && ReaderOK(ctx.reader) && ctx.resultCache != nil && ctx.keywords != nil && ctx.reader.Pos(0) >= 0 && (ctx.err != nil ==> 0 <= ctx.err.Pos() && ctx.err.Pos() <= GhostMaxFail)
 
 //@ method (c *Context) FileSet() (r *FileSet) = c.fileSet
 //@ method (c *Context) Reader() (r Reader) = c.reader
@@ -267,7 +267,7 @@ package parsley
 
 //@ -- cache invariant: every stored result satisfies, for its own position, what the Parser contract
 //@ -- promises of a returned result (so that a cache hit may be returned as is)
-//@ pure func StoredOK(ctx *Context, res *Result, pos Pos) bool = res != nil && data.Inv(res.CurtailingParsers) && (res.Node != nil ==> NodeOK(res.Node) && ListSpare(res.Node) == 0 && (ListArr(res.Node) != 0 ==> !GhostSpare(ListArr(res.Node))) && EndsWithin(res.Node, pos, Eof(ctx.reader, pos))) && (res.Error != nil ==> pos <= res.Error.Pos() && res.Error.Pos() <= Eof(ctx.reader, pos) && res.Error.Pos() <= GhostMaxFail) && (res.Node == nil && res.Error == nil ==> GhostCurtailed)
+//@ pure func StoredOK(ctx *Context, res *Result, pos Pos) bool = res != nil && data.Inv(res.CurtailingParsers) && (res.Node != nil ==> NodeOK(res.Node) && ListSpare(res.Node) == 0 && allocatedid(ListArr(res.Node)) && (ListArr(res.Node) != 0 ==> !GhostSpare(ListArr(res.Node))) && EndsWithin(res.Node, pos, Eof(ctx.reader, pos))) && (res.Error != nil ==> pos <= res.Error.Pos() && res.Error.Pos() <= Eof(ctx.reader, pos) && res.Error.Pos() <= GhostMaxFail) && (res.Node == nil && res.Error == nil ==> GhostCurtailed)
 //@ pure func WfCache(ctx *Context) bool = WfCacheShape(ctx.resultCache) && forall i int, p Pos :: ctx.resultCache[i][p] != nil ==> InInput(ctx.reader, p) && StoredOK(ctx, ctx.resultCache[i][p], p)
 
 //@ -- PC: what every Parser promises and may rely on
@@ -307,22 +307,27 @@ package parsley
 //@ interface parsley.Transformable.Transform(n Transformable, userCtx interface{}) (r Node, err Error)
 //@   requires n != nil
 //@   ensures  [result;C04] (r == nil) != (err == nil)
-//@   assigns  fields[Context](), fields[Result](), maps[ResultCache](), maps[map[Pos]*Result](), GhostCurtailed, GhostMaxFail, GhostCalls
+//@   ensures  r != nil ==> NodeOK(r)
+//@   ensures  err != nil ==> err.Pos() >= 0
+//@   assigns  fields[Node]()
 
 //@ func Transform(userCtx interface{}, node Node) (r Node, err Error)
-//@   requires node != nil
+//@   requires node != nil && NodeOK(node)
 //@   ensures  [result;C04] (r == nil) != (err == nil)
-//@   assigns  fields[Context](), fields[Result](), maps[ResultCache](), maps[map[Pos]*Result](), GhostCurtailed, GhostMaxFail, GhostCalls
+//@   ensures  r != nil ==> NodeOK(r)
+//@   ensures  err != nil ==> err.Pos() >= 0
+//@   assigns  fields[Node]()
 
 //@ func StaticCheck(userCtx interface{}, node Node) (err Error)
 //@   requires node != nil && NodeOK(node)
-//@   assigns  fields[Context](), fields[Result](), maps[ResultCache](), maps[map[Pos]*Result](), GhostCurtailed, GhostMaxFail, GhostCalls
+//@   ensures  err != nil ==> err.Pos() >= 0
+//@   assigns  fields[Node]()
 //@   flag trusted
 
 //@ -- Parse: exactly one of a node or an error, for every root parser that satisfies the Parser contract
 //@ func Parse(ctx *Context, p Parser) (n Node, err error)
 //@   requires p != nil && WfCtx(ctx) && WfCache(ctx) && ctx.fileSet != nil && wfFS(ctx.fileSet) && sortedOffsets(ctx.fileSet)
-//@   requires ctx.reader.Remaining(ctx.reader.Pos(0)) >= 0 && ctx.reader.Pos(0) >= 0
+//@   requires ctx.reader.Remaining(ctx.reader.Pos(0)) >= 0
 //@   requires GhostFloorPos < ctx.reader.Pos(0)
 //@   ensures  [one-of;C04] (n == nil) != (err == nil)
-//@   assigns  fields[Context](), fields[Result](), fields[File](), maps[ResultCache](), maps[map[Pos]*Result](), maps[map[string]*regexp.Regexp](), GhostCurtailed, GhostMaxFail, GhostCalls, GhostFloorPos, GhostFloorLrc, GhostLo, GhostHi
+//@   assigns  ctx.err, ctx.callCount, fields[Node](), fields[File](), maps[ResultCache](), maps[map[Pos]*Result](), maps[map[string]*regexp.Regexp](), GhostCurtailed, GhostMaxFail, GhostCalls, GhostFloorPos, GhostFloorLrc, GhostLo, GhostHi
